@@ -58,6 +58,8 @@ func init() {
 }
 
 func runC20(c *Ctx, r *Report) {
+	r.Rule("C20/readall-drains", "Channel.ReadAll takes everything that is queued unless it received an error from the reader", 1)
+	checkReadAllDrains(c, r, "C20/readall-drains")
 	importFoundation(c, r, "C20", "read-loop")
 	importFoundation(c, r, "C20", "transport-pipe")
 	r.Rule("C20/ansi-bounded", "what the read loop strips before queueing cannot span ordinary output: no unbounded repetition of the escape-sequence pattern admits ESC or newline", 1)
